@@ -11,7 +11,7 @@ CONSTANTS
   MaxResults = 1
   KindSet = {"ok", "nr"}
   BuCap = 1
-  FixF22 = FALSE
+  FixF34 = FALSE
   GenHist = FALSE
 INIT Init
 NEXT Next
